@@ -56,7 +56,7 @@ var familyWeights = []struct {
 	{"engine", "contact-missing-fields", 4}, {"engine", "mix", 14},
 	{"migrate", "mix", 6}, {"migrate", "legacy-corpus", 3}, {"clone", "mix", 4}, {"clone", "overlapping-mapping", 5}, {"query", "mix", 5},
 	{"xobject", "mix", 4}, {"xobject", "casevariant-get", 3},
-	{"definition", "invalid-headers", 3}, {"definition", "legacy-airtime-errors", 2}, {"urns", "percent-escape", 2}, {"dates", "locale-names", 3}, {"dates", "parse-error-token", 2}, {"names", "flow-resolution", 3}, {"process-env", "timezone-name-from-input", 3}, {"process-env", "timezone-name-stored", 2}, {"engine", "asset-order", 6}, {"engine", "cold-vs-warm-flow-cache", 3},
+	{"definition", "invalid-headers", 3}, {"definition", "legacy-airtime-errors", 2}, {"urns", "percent-escape", 2}, {"dates", "locale-names", 3}, {"dates", "parse-error-token", 2}, {"names", "flow-resolution", 3}, {"process-env", "timezone-name-from-input", 3}, {"process-env", "timezone-name-stored", 2}, {"process-state", "earlier-environment", 3}, {"engine", "asset-order", 6}, {"engine", "cold-vs-warm-flow-cache", 3},
 	{"services", "dtone-two-currencies", 2}, {"services", "luis-intent-ties", 2}, {"services", "luis-distinct-scores", 2}, {"services", "wit-entity-roles", 2},
 }
 
@@ -127,6 +127,8 @@ func buildScenarios(seed uint64, n int) []*scenario {
 			s = flowNameScenario(g, i)
 		case "process-env":
 			s = processEnvScenario(g, fw.feature, i)
+		case "process-state":
+			s = earlierEnvScenario(g, i)
 		}
 		res = append(res, s)
 	}
@@ -250,6 +252,9 @@ func classify(s *scenario, outName string, a, b []byte) (string, string) {
 		return "definition:validation-error-text", p
 	}
 	switch s.Family {
+	case "process-state/earlier-environment":
+		// a session with the default number format ran after another session whose environment had its own
+		return "process-state:earlier-environment-number-format", p
 	case "engine/cold-vs-warm-flow-cache":
 		// a flow stored below the current spec is migrated on first load with UUIDs of the session's UUID source
 		return "flow-cache:lazy-migration-draws-uuids", p
